@@ -13,9 +13,34 @@
 import Mhd.Proofs.AuthSem
 import Mhd.Proofs.AuthTerm
 import Mhd.Proofs.AuthB64Canon
+import Mhd.Proofs.AuthExt
+import Mhd.Proofs.AuthApi
 
 namespace Mhd.C14
 open Mhd.Auth Mhd.Gen.Auth
+
+/-! ## The parameter table -/
+
+/-- the regenerated `tk_names[]` / `params[]` tables are the ones the model's slot constants refer to:
+    name k is stored in field k, and the constants `kNonce … kUserhash` index them as written -/
+theorem param_table :
+    paramNames =
+      [/- nonce -/ [110, 111, 110, 99, 101],
+       /- opaque -/ [111, 112, 97, 113, 117, 101],
+       /- algorithm -/ [97, 108, 103, 111, 114, 105, 116, 104, 109],
+       /- response -/ [114, 101, 115, 112, 111, 110, 115, 101],
+       /- username -/ [117, 115, 101, 114, 110, 97, 109, 101],
+       /- username* -/ [117, 115, 101, 114, 110, 97, 109, 101, 42],
+       /- realm -/ [114, 101, 97, 108, 109],
+       /- uri -/ [117, 114, 105],
+       /- qop -/ [113, 111, 112],
+       /- cnonce -/ [99, 110, 111, 110, 99, 101],
+       /- nc -/ [110, 99],
+       /- userhash -/ [117, 115, 101, 114, 104, 97, 115, 104]] ∧
+    paramSlots = ["nonce", "opaque", "algorithm", "response", "username", "username_ext", "realm", "uri", "qop_raw",
+      "cnonce", "nc", "userhash"] ∧
+    kNonce = 0 ∧ kOpaque = 1 ∧ kAlgorithm = 2 ∧ kResponse = 3 ∧ kUsername = 4 ∧ kUsernameExt = 5 ∧ kRealm = 6 ∧
+    kUri = 7 ∧ kQop = 8 ∧ kCnonce = 9 ∧ kNc = 10 ∧ kUserhash = 11 := by decide
 
 /-! ## Digest: parse ∘ render -/
 
@@ -59,6 +84,31 @@ def exElems : List Elem :=
 example : WF [32] exElems = true := by decide
 example : view exElems kAlgorithm = some [77, 68, 53, 45, 115, 101, 115, 115] := by decide
 example : algoSem (view exElems kAlgorithm) = algoMd5Sess := by decide
+
+/-- The same for the full list grammar of RFC 7235: known parameters in any rendering, interleaved with
+    arbitrary extension parameters (any other name; token or quoted-string value with any escapes) and
+    empty list elements (`,,`, leading and trailing commas).  Extension parameters and empty elements
+    change nothing. -/
+theorem digest_roundtrip_full (lead : Bytes) (gs : List GElem) (t : UInt8) (ht : t ≠ 59) (hwf : WFG lead gs = true) :
+    ∃ d, parseDigest (renderG lead gs) (some t) = .ok d ∧
+      (∀ k, (d.slots k).map paramUnq = viewG gs k) ∧
+      d.algo3 = algoSem (viewG gs kAlgorithm) ∧ d.qop = qopSem (viewG gs kQop) ∧
+      d.userhash = userhashSem (viewG gs kUserhash) :=
+  parseDigest_renderG lead gs t ht hwf
+
+/-- Non-vacuity: `,  Realm = "a\"b" ,, x-ext="q,;=\"" , NC=0000000a ,` -/
+def exG : List GElem :=
+  [.empty [32, 32],
+   .known ⟨⟨kRealm, [97, 34, 98]⟩, ⟨[true], [32], [32], .quoted [], [32], []⟩⟩,
+   .empty [32],
+   .ext [120, 45, 101, 120, 116] ⟨[], [], [], .quoted [], [32], [32]⟩ [113, 44, 59, 61, 34],
+   .known ⟨⟨kNc, [48, 48, 48, 48, 48, 48, 48, 97]⟩, ⟨[true, true], [], [], .token, [32], []⟩⟩,
+   .empty []]
+
+example : WFG [] exG = true := by decide
+example : viewG exG kRealm = some [97, 34, 98] ∧ viewG exG kNc = some [48, 48, 48, 48, 48, 48, 48, 97] := by decide
+example : renderG [] exG = [44, 32, 32, 82, 101, 97, 108, 109, 32, 61, 32, 34, 97, 92, 34, 98, 34, 32, 44, 44, 32,
+    120, 45, 101, 120, 116, 61, 34, 113, 44, 59, 61, 92, 34, 34, 32, 44, 32, 78, 67, 61, 48, 48, 48, 48, 48, 48, 48, 97, 32, 44] := by decide
 
 /-! ## Algorithm / qop / userhash are invariant under quoting and escaping (F5) -/
 
@@ -174,5 +224,76 @@ theorem basic_garbage_rejected (s : Bytes) (off : Nat) (tok : Bytes) (h : parseB
 
 example : parseBasic [65, 66, 32, 67] = .reject := by decide     -- "AB C"
 example : parseBasic [32, 65, 66, 9] = .ok (some (1, [65, 66])) := by decide
+
+/-! ## Header lookup -/
+
+/-- `find_auth_rq_header_`, one header, completely characterised -/
+theorem find_header_exact (tok : Bytes) (h : Hdr) :
+    hdrMatch tok h =
+      if h.kind = headerKind ∧ h.name.map toLowerB = authHeader.map toLowerB ∧ tok.length ≤ h.value.length ∧
+          (h.value.take tok.length).map toLowerB = tok.map toLowerB then
+        match h.value.drop tok.length with
+        | [] => some (tok.length, [])
+        | c :: r => if c = 32 ∨ c = 9 then some (tok.length + 1, r) else none
+      else none :=
+  hdrMatch_exact tok h
+
+/-- … and the first matching header of the list is the one used; no match ⇒ not found. -/
+theorem find_header_first (tok : Bytes) (pre : List Hdr) (h : Hdr) (post : List Hdr) (off : Nat) (rest : Bytes)
+    (hpre : ∀ x ∈ pre, hdrMatch tok x = none) (hm : hdrMatch tok h = some (off, rest)) :
+    findAuthHeader true tok (pre ++ h :: post) = some (pre.length, off, rest) := by
+  have := findHdrLoop_first tok pre h post 0 off rest hpre hm
+  simpa [findAuthHeader] using this
+
+example : findAuthHeader true digestBase
+    [⟨headerKind, [72, 111, 115, 116], [120]⟩, ⟨headerKind, authHeader.map toUpperB, [100, 73, 71, 69, 83, 84, 9, 110, 99, 61, 49]⟩] =
+    some (1, 7, [110, 99, 61, 49]) := by decide
+example : findAuthHeader true digestBase [⟨headerKind, authHeader, digestBase⟩] = some (0, 6, []) := by decide
+example : findAuthHeader true digestBase [⟨headerKind, authHeader, digestBase ++ [120]⟩] = none := by decide
+
+/-! ## The public API -/
+
+theorem basic_api_roundtrip (sch : Bytes) (sp : UInt8) (w1 w2 u pw : Bytes)
+    (hs : sch.map toLowerB = basicBase.map toLowerB) (hsp : sp = 32 ∨ sp = 9)
+    (h1 : allWs w1 = true) (h2 : allWs w2 = true) (hu : ∀ c ∈ u, c ≠ 58) :
+    basicApi (sch ++ sp :: (w1 ++ b64Enc (u ++ 58 :: pw) ++ w2)) = some (u, some pw) :=
+  basicApi_roundtrip sch sp w1 w2 u pw hs hsp h1 h2 hu
+
+example : basicApi ([98, 65, 83, 73, 67] ++ 9 :: ([32] ++ b64Enc ([65] ++ 58 :: [66, 58]) ++ [32])) = some ([65], some [66, 58]) := by
+  decide
+
+theorem info_roundtrip (lead : Bytes) (es : List Elem) (t : UInt8) (ht : t ≠ 59) (hwf : WF lead es = true)
+    (hinfo : es.all Elem.infoWf = true) (s' : Bytes) (term' : Option UInt8) :
+    ∃ d, parseDigest (render lead es) (some t) = .ok d ∧
+      eraseCnl (requestInfo (render lead es) (some t) d) = eraseCnl (requestInfo s' term' (canon (view es))) ∧
+      usernameInfo (render lead es) (some t) d = usernameInfo s' term' (canon (view es)) ∧
+      (d.slots kCnonce).map (fun p => p.raw.length) = (rawView es none kCnonce).map (fun x => x.1.length) :=
+  info_render lead es t ht hwf hinfo s' term'
+
+theorem digest_api_roundtrip (sch : Bytes) (sp : UInt8) (lead : Bytes) (es : List Elem)
+    (hs : sch.map toLowerB = digestBase.map toLowerB) (hsp : sp = 32 ∨ sp = 9)
+    (hwf : WF lead es = true) (hinfo : es.all Elem.infoWf = true) (s' : Bytes) (term' : Option UInt8) :
+    ∃ i u, digestApi (sch ++ sp :: render lead es) = .ok (some (i, u)) ∧
+      eraseCnl i = eraseCnl (requestInfo s' term' (canon (view es))) ∧
+      u = usernameInfo s' term' (canon (view es)) :=
+  digestApi_roundtrip sch sp lead es hs hsp hwf hinfo s' term'
+
+/-- Non-vacuity, all three user-name notations: the canonical parameters of the meaning give
+    STANDARD `a"b`, USERHASH with binary `ab cd`, EXTENDED `J ä` decoded from `UTF-8''J%20%C3%A4`. -/
+def exStd : List Elem := [⟨⟨kUsername, [97, 34, 98]⟩, ⟨[], [], [], .quoted [true], [], []⟩⟩,
+  ⟨⟨kNc, [48, 97]⟩, ⟨[true], [32], [], .quoted [false, true], [], []⟩⟩]
+def exHash : List Elem := [⟨⟨kUserhash, [84, 82, 85, 69]⟩, ⟨[], [], [], .token, [], []⟩⟩,
+  ⟨⟨kUsername, [97, 98, 67, 68]⟩, ⟨[], [], [], .quoted [], [], []⟩⟩]
+def exExt : List Elem := [⟨⟨kUsernameExt, [85, 84, 70, 45, 56, 39, 39, 74, 37, 50, 48, 37, 67, 51, 37, 65, 52]⟩, ⟨[], [], [], .token, [], []⟩⟩]
+
+example : WF [] exStd = true ∧ exStd.all Elem.infoWf = true := by decide
+example : WF [] exHash = true ∧ exHash.all Elem.infoWf = true := by decide
+example : WF [] exExt = true ∧ exExt.all Elem.infoWf = true := by decide
+example : (usernameInfo [] none (canon (view exStd))) = .ok (⟨unStandard, some [97, 34, 98], none, none⟩, algoMd5) := by decide
+example : (usernameInfo [] none (canon (view exHash))) = .ok (⟨unUserhash, none, some [97, 98, 67, 68], some [0xab, 0xcd]⟩, algoMd5) := by decide
+example : (usernameInfo [] none (canon (view exExt))) = .ok (⟨unExtended, some [74, 32, 0xc3, 0xa4], none, none⟩, algoMd5) := by decide
+example : eraseCnl (requestInfo [] none (canon (view exStd))) =
+    .ok ⟨algoMd5, ⟨unStandard, some [97, 34, 98], none, none⟩, none, none, qopNone, 0, 10⟩ := by decide
+
 
 end Mhd.C14
